@@ -264,6 +264,8 @@ func runC16(c *Ctx) {
 		c.Ob("aof-logged-type", "aof."+m, fn.Decl.Pos(), ok, "logs "+w.typ+" with its own parameters: "+det)
 	}
 
+	memoryWriteEffects(c, "keyspace-independence")
+
 	// presence predicate agreement (memory)
 	kinds := map[string][]token.Pos{}
 	for _, fn := range c.AllFuncs("kv/memory") {
@@ -660,6 +662,7 @@ func runC18(c *Ctx) {
 		}
 	}
 	c.Floor("CAS sites in kv/memory", ncas, 5)
+	memoryWriteEffects(c, "memory-cas")
 
 	// AOF single writer
 	mutating := map[string]bool{"Put": true, "Delete": true, "PrefixAppend": true, "PrefixRemove": true, "Import": true, "RemoveKeys": true}
@@ -1123,3 +1126,65 @@ func runC19(c *Ctx) {
 	c.Assume("successful Acquire/Renew never return 0: the token is now+ttl in UnixNano with ttl >= 1s")
 }
 
+
+// memoryWriteEffects: which parts of a stored value each memory method can write, helper
+// functions followed. The simple, prefix and lease keyspaces of one key are independent
+// (contract), and a whole entry is dropped only by RemoveKeys: dropping it from anywhere
+// else both erases the other keyspaces and races with writers that already hold the value
+// (check-then-delete is not atomic).
+func memoryWriteEffects(c *Ctx, rule string) {
+	type eff struct {
+		name string
+		pred effPred
+	}
+	fieldOp := func(field string, ops ...string) effPred {
+		return func(g *Fn, call *ast.CallExpr) bool {
+			se, ok := ast.Unparen(call.Fun).(*ast.SelectorExpr)
+			if !ok || g.FieldKey(se.X) != "kv/memory.kvValue."+field {
+				return false
+			}
+			for _, o := range ops {
+				if se.Sel.Name == o {
+					return true
+				}
+			}
+			return false
+		}
+	}
+	effs := []eff{
+		{"simple", fieldOp("simple", "Store", "CompareAndSwap", "Swap")},
+		{"lease", fieldOp("lease", "Store", "CompareAndSwap", "Swap", "Add")},
+		{"children", fieldOp("children", "Add", "Remove")},
+		{"entry-removal", func(g *Fn, call *ast.CallExpr) bool {
+			se, ok := ast.Unparen(call.Fun).(*ast.SelectorExpr)
+			if !ok || (se.Sel.Name != "Delete" && se.Sel.Name != "LoadAndDelete") {
+				return false
+			}
+			return strings.Contains(typeStr(g, se.X), "skipmap.")
+		}},
+	}
+	allowed := map[string]map[string]bool{
+		"Put": {"simple": true}, "Delete": {"simple": true}, "Get": {},
+		"PrefixAppend": {"children": true}, "PrefixRemove": {"children": true}, "PrefixList": {}, "PrefixContains": {},
+		"Acquire": {"lease": true}, "Renew": {"lease": true}, "Release": {"lease": true},
+		"Import": {"simple": true, "lease": true, "children": true}, "RemoveKeys": {"entry-removal": true},
+		"ListKeys": {}, "Export": {}, "RangeKeys": {},
+	}
+	n := 0
+	var methods []string
+	for m := range allowed {
+		methods = append(methods, m)
+	}
+	sort.Strings(methods)
+	for _, m := range methods {
+		fn := c.Func("kv/memory", "MemoryKV", m)
+		for _, e := range effs {
+			if fn.mayPerform(e.pred, 0) {
+				n++
+				c.Ob(rule, fmt.Sprintf("memory.%s#writes-%s", m, e.name), fn.Decl.Pos(), allowed[m][e.name],
+					fmt.Sprintf("memory.%s (helpers followed) writes the %s part of a stored value; the contract lets it touch only %s", m, e.name, setStr(allowed[m])))
+			}
+		}
+	}
+	c.Floor("memory write effects", n, 10)
+}
